@@ -42,8 +42,8 @@ def run_witness(path, defines=(), compiler="clang++", std="gnu++17", extra=()):
         cmd += ["-fmax-errors=0", "-w", "-fno-diagnostics-show-caret", "-fdiagnostics-color=never"]
     for d in defines:
         cmd.append("-D" + d)
-    for d in CONFIG_DEFINES:  # the configuration under analysis (set by the check driver for a switch sweep)
-        cmd.append("-D" + d)
+    for d in CONFIG_DEFINES:  # the configuration under analysis (set by the check driver for a switch sweep); "!X" undefines X
+        cmd.append(("-U" + d[1:]) if d.startswith("!") else ("-D" + d))
     cmd += list(extra)
     cmd.append(path)
     r = subprocess.run(cmd, stdout=subprocess.PIPE, stderr=subprocess.STDOUT, text=True, errors="replace")
